@@ -137,7 +137,7 @@ Definition os_hash_input (a : ostr) : res (list N) := os_octets a.
 
 (* ---------- encoding ---------- *)
 Definition write_hdr (t : tag) (k : bool) (n : N) : res (list N) :=
-  match length_write n with Ok l => Ok (tag_write k t ++ l) | _ => Panic end.
+  res_map (fun l => tag_write k t ++ l) (length_write n).
 (* OctetStringEncoder; Panic = unimplemented!() in CER *)
 Definition os_encode (m : mode) (t : tag) (o : ostr) : res (list N) :=
   match m with
